@@ -186,6 +186,7 @@ type stepper struct {
 	strayCalls int
 	lastDone   time.Time      // last time a serve goroutine left (the idle timer may have been armed then)
 	prog       map[string]int // critical sections that ran: counted, done, timer (notification hook points)
+	progLag    map[string]int // SSHook behaviours: critical sections given up waiting for
 }
 
 func (s *stepper) Begin(b replay.Behaviour, rng *rand.Rand) error {
@@ -201,6 +202,7 @@ func (s *stepper) Begin(b replay.Behaviour, rng *rand.Rand) error {
 	s.inCall = map[int]chan struct{}{}
 	s.conns = map[int]*cconn{}
 	s.prog = map[string]int{"counted": 0, "done": 0, "timer_runs": 0}
+	s.progLag = map[string]int{}
 	if (s.wantHooks || s.ssHook) && !s.points {
 		s.skipAll = true
 		return nil
@@ -713,8 +715,23 @@ func (s *stepper) snapshot(st replay.Step, obs replay.Obs) replay.Obs {
 				if k != "timer_runs" {
 					need += s.probes
 				}
+				need -= s.progLag[k]
 				if s.prog[k] < need {
 					ok = false
+				}
+			}
+		}
+		timedOut := !ok && time.Now().After(deadline)
+		if timedOut && s.ssHook {
+			// (progress is synchronisation only in these behaviours) a critical section that
+			// did not run within a full wait is not waited for again in the later steps
+			for k := range s.prog {
+				need := replay.Int(expProg, k) - s.progLag[k]
+				if k != "timer_runs" {
+					need += s.probes
+				}
+				if s.prog[k] < need {
+					s.progLag[k] += need - s.prog[k]
 				}
 			}
 		}
@@ -722,7 +739,7 @@ func (s *stepper) snapshot(st replay.Step, obs replay.Obs) replay.Obs {
 		if ok {
 			break
 		}
-		if time.Now().After(deadline) {
+		if timedOut {
 			slowWaits.Add(1)
 			break
 		}
@@ -831,7 +848,7 @@ func (s *stepper) snapshot(st replay.Step, obs replay.Obs) replay.Obs {
 		}
 	}
 	if !ret && expReturned {
-		obs["__note__"] = fmt.Sprintf("not returned %s after the step began", returnBound)
+		obs["__note__"] = fmt.Sprintf("not returned %s after the step began", time.Since(t0).Round(100*time.Millisecond))
 	}
 	if ret && s.retErr != nil {
 		obs["__note__"] = fmt.Sprintf("listener returned error: %v", s.retErr)
